@@ -1835,8 +1835,9 @@ class QuadraticForm(Functional):
         elif self.vector is None:
             return x.inner(self.operator(x)) + self.constant
         else:
-            tmp = self.operator(x)
-            tmp += self.vector
+            # Out-of-place sum: `operator(x)` may return `x` itself (e.g.
+            # `RealPart` on a real space), which must not be modified.
+            tmp = self.operator(x) + self.vector
             return x.inner(tmp) + self.constant
 
     @property
